@@ -228,6 +228,9 @@ pub fn explore(o: &CheckOpts, fams: &[Family], known: &known::KnownFile) -> (Sta
                     if out.cap_hit {
                         st.cap_hits += 1;
                     }
+                    if out.hist.fault_counts.contains_key("datagram_cap_hit") {
+                        eprintln!("NOTE: datagram cap hit in family {} seed {}", fam.name, seed);
+                    }
                     if res.inconclusive {
                         st.inconclusive += 1;
                     }
